@@ -210,13 +210,69 @@ func runC20(c *Ctx) {
 			}
 			return true
 		})
+		// the same test written with the standard library:
+		// if slices.ContainsFunc(list, func(o Entry) bool { return type == type && name == name }) { return }
+		if replLoop == nil {
+			ast.Inspect(chk.Decl.Body, func(n ast.Node) bool {
+				ifs, ok := n.(*ast.IfStmt)
+				if !ok || replLoop != nil {
+					return true
+				}
+				call, ok := ast.Unparen(ifs.Cond).(*ast.CallExpr)
+				if !ok || len(call.Args) != 2 || len(returnsIn(ifs.Body.List)) == 0 {
+					return true
+				}
+				fn := Callee(info, call)
+				lit, isLit := call.Args[1].(*ast.FuncLit)
+				if fn == nil || fn.Pkg() == nil || fn.Pkg().Path() != "slices" || fn.Name() != "ContainsFunc" || !isLit {
+					return true
+				}
+				hasType, hasName := false, false
+				ast.Inspect(lit.Body, func(m ast.Node) bool {
+					if e, ok := m.(ast.Expr); ok {
+						if bothCalls(e, "internal/parser.Rule.Type") {
+							hasType = true
+						}
+						if bothCalls(e, "internal/parser.Rule.Name") {
+							hasName = true
+						}
+					}
+					return true
+				})
+				// both must be required: a conjunction in the single return of the closure
+				conj := false
+				if rets := returnsIn(lit.Body.List); len(rets) == 1 && len(rets[0].Results) == 1 {
+					n := 0
+					for _, a := range implied(rets[0].Results[0], nil, true) {
+						if bothCalls(a.E, "internal/parser.Rule.Type") || bothCalls(a.E, "internal/parser.Rule.Name") {
+							n++
+						}
+					}
+					conj = n == 2
+				}
+				if hasType && hasName && conj {
+					// stands in for the loop: X is the list that is searched
+					replLoop = &ast.RangeStmt{For: ifs.Pos(), X: call.Args[0], Body: ifs.Body}
+				}
+				return true
+			})
+		}
 		c.Check(replLoop != nil, "C20-R3", "Check:replacement test (same type and name) returns early", chk.Decl.Pos(), "present", "no early return when another rule with the same type and name remains")
 		scans := fl.FindCalls("internal/checks.RuleDependencyCheck.usesVector", "internal/checks.RuleDependencyCheck.usesAlert")
 		c.Check(len(scans) == 2, "C20-R3", "Check:scans with usesVector and usesAlert", chk.Decl.Pos(), "both scans", itoa(len(scans))+" scan call(s) found")
 		if replLoop != nil {
 			for _, s := range scans {
 				target := s.Site
-				ok, _ := fl.MustPass(fl.Entry(), func(x Site) bool { return x == target }, false, func(n ast.Node) bool { return n == replLoop.X })
+				ok, _ := fl.MustPass(fl.Entry(), func(x Site) bool { return x == target }, false, func(n ast.Node) bool {
+					found := false
+					ast.Inspect(n, func(m ast.Node) bool {
+						if m == ast.Node(replLoop.X) {
+							found = true
+						}
+						return !found
+					})
+					return found
+				})
 				c.Check(ok, "C20-R3", "Check:replacement test precedes "+calleeName(info, s.Inner.(*ast.CallExpr)), s.Inner.Pos(), "ordered", "the dependant scan can run before the replacement test")
 			}
 			// the replacement loop ranges over the filtered list
